@@ -24,7 +24,13 @@ D. generated MetaData: same tables / columns / constraints / indexes, identical 
    and ``create_all`` works on a scratch database.
 E. generated Core / ORM statements and legacy Query objects through
    ``ext.serializer.dumps/loads``: identical compiled SQL + parameters and identical
-   execution results.
+   execution results.  A second family runs over MetaData with schema-qualified tables
+   (SQLite ATTACH; ``Table(schema=)`` and ``MetaData(schema=)``; with and without an
+   unqualified table of the same name): SELECTs, joins, subqueries and INSERT / UPDATE /
+   DELETE / INSERT..FROM SELECT whose effect on every table is compared inside a rolled
+   back transaction; a ``loads(dumps(x))`` that raises is a violation.
+Part A also loads objects under the ``identity_token`` execution option: after the round
+trip ``state.identity_token`` must equal ``key[2]``.
 
 Guards: a pickled Row only keeps string keys (documented), so lookups by column object are
 not tried on the copy; unpickled objects are never attached (documented); statement
@@ -47,7 +53,8 @@ META = {
     "require": ["objects_roundtripped", "object_states_compared", "reattached", "lazy_accesses_compared",
                 "flush_streams_compared", "rows_roundtripped", "frozen_roundtripped", "metadata_roundtripped",
                 "ddl_strings_compared", "statements_roundtripped", "statement_results_compared",
-                "history_preserved_cases", "expired_preserved_cases", "loader_option_cases"],
+                "history_preserved_cases", "expired_preserved_cases", "loader_option_cases",
+                "schema_statements_roundtripped", "identity_token_cases"],
     "assumptions": ["two sessions on separate connections of one SQLite file see the same committed fixture"],
 }
 
@@ -126,7 +133,9 @@ def make_object(R, spec, sess):
         if st == "pending":
             sess.add(u)
         return u
-    u = sess.scalars(sa.select(M.User).where(M.User.id == spec["rid"]).options(*R.options(spec["opts"]))).one()
+    eo = {"identity_token": spec["token"]} if spec.get("token") else {}
+    u = sess.scalars(sa.select(M.User).where(M.User.id == spec["rid"]).options(*R.options(spec["opts"])),
+                     execution_options=eo).one()
     if spec.get("touch"):
         getattr(u, spec["touch"])
     if st in ("dirty", "detached_dirty"):
@@ -179,7 +188,7 @@ def part_a(R, n):
                 "opts": rng.choice(OPTSETS), "touch": rng.choice([None, None, "addresses", "profile"]),
                 "edits": rng.sample(["name", "age", "addr_append", "addr_email", "addr_remove", "pos", "profile_motto"],
                                     rng.randint(1, 3)),
-                "proto": PROTOS[k % len(PROTOS)],
+                "proto": PROTOS[k % len(PROTOS)], "token": rng.choice([None, None, "shardA"]),
                 "access": rng.sample(ACCESS, rng.randint(2, 5))}
         s1 = orm.Session(R.engine, autoflush=False)
         s2 = orm.Session(R.engine, autoflush=False)
@@ -190,7 +199,7 @@ def part_a(R, n):
             facts_o = [M.state_facts(o) for o in nodes_o]
             copy_ = roundtrip(orig, spec["proto"])
             ctx.count("objects_roundtripped")
-            desc = {k2: spec[k2] for k2 in ("state", "rid", "opts", "touch", "edits", "proto", "access")}
+            desc = {k2: spec[k2] for k2 in ("state", "rid", "opts", "touch", "edits", "proto", "access", "token")}
             if spec["state"] in ("transient", "pending"):
                 desc = {"state": spec["state"], "k": k % 30, "proto": spec["proto"]}
 
@@ -223,6 +232,13 @@ def part_a(R, n):
                 ctx.count("expired_preserved_cases")
             if any(f["load_options"] for f in facts_o):
                 ctx.count("loader_option_cases")
+            if any(f["identity_token"] is not None for f in facts_o):
+                ctx.count("identity_token_cases")
+            tok_bad = [type(o).__name__ for o in nodes_c
+                       if sa.inspect(o).key is not None and sa.inspect(o).identity_token != sa.inspect(o).key[2]]
+            if tok_bad:
+                vio("unpickled-identity-token-differs-from-key", "nodes %s: state.identity_token != key[2]" % tok_bad)
+                continue
             nontriv = len(nodes_o) >= 2 or any(f["committed_state"] or f["expired_attributes"] or f["unloaded"] for f in facts_o)
             ctx.case(desc, nontrivial=nontriv)
             if k < 2:
@@ -635,6 +651,102 @@ def part_e(R, n):
             ctx.sample({"part": "E", "names": [x[0] for x in stmts], "params": params})
 
 
+def schema_statements(sa, tabs, rng):
+    """statements whose FROM / target elements are schema-qualified Table objects"""
+    qi, qs, up = tabs["q_item"], tabs["q_solo"], tabs["u_plain"]
+    ui = tabs.get("u_item")
+    v = rng.choice([0, 1, 2, 3])
+    out = [
+        ("q_select_table", "select", sa.select(qi).order_by(qi.c.id)),
+        ("q_select_cols_where", "select", sa.select(qi.c.name, qi.c.qty).where(qi.c.id > v).order_by(qi.c.id)),
+        ("q_join_fk", "select", sa.select(qs.c.tag, qi.c.name).select_from(qs.join(qi)).order_by(qs.c.id)),
+        ("q_exists", "select", sa.select(qi.c.id).where(sa.exists().where(qs.c.item_id == qi.c.id)).order_by(qi.c.id)),
+        ("q_subquery", "select", sa.select(sa.func.count()).select_from(sa.select(qs).where(qs.c.id >= v).subquery())),
+        ("q_alias", "select", sa.select(qi.alias("a1").c.name).order_by(sa.text("1"))),
+        ("q_with_plain", "select", sa.select(up.c.tag, qi.c.name).join_from(up, qi, up.c.id == qi.c.id).order_by(up.c.id)),
+        ("q_update", "dml", sa.update(qi).where(qi.c.id == 1 + v % 4).values(name="upd", qty=qi.c.qty + 1)),
+        ("q_delete", "dml", sa.delete(qs).where(qs.c.id > v)),
+        ("q_insert", "dml", sa.insert(qi).values(id=90 + v, name="ins", qty=v)),
+        ("q_insert_from_select", "dml", sa.insert(qs).from_select(["id", "item_id", "tag"], sa.select(qi.c.id + 50, qi.c.id, qi.c.name).where(qi.c.id <= 1 + v))),
+    ]
+    if ui is not None:
+        out += [
+            ("twin_unqualified", "select", sa.select(ui).order_by(ui.c.id)),
+            ("twin_both_join", "select", sa.select(ui.c.name, qi.c.name).join_from(ui, qi, ui.c.id == qi.c.id).order_by(ui.c.id)),
+            ("twin_union", "select", sa.union_all(sa.select(ui.c.id, ui.c.name), sa.select(qi.c.id, qi.c.name)).order_by("id", "name")),
+            ("twin_copy", "dml", sa.insert(ui).from_select(["id", "name", "qty"], sa.select(qi.c.id + 100, qi.c.name, qi.c.qty))),
+            ("twin_update_unqualified", "dml", sa.update(ui).where(ui.c.id == 1).values(name="upd-main")),
+        ]
+    return out, v
+
+
+def part_e_schemas(R, n):
+    """ext.serializer over MetaData that contains schema-qualified tables (SQLite ATTACH),
+    with and without an unqualified twin of the same name, Table(schema=) and
+    MetaData(schema=) flavours; SELECT results and DML effects are compared."""
+    ctx, sa, M = R.ctx, R.sa, R.rig
+    from sqlalchemy import event
+    from sqlalchemy.ext import serializer
+
+    rng = ctx.rng
+    for k in range(n):
+        for twin in (True, False):
+            for default_schema in (False, True):
+                main, alt = ctx.tmppath(".db"), ctx.tmppath(".db")
+                eng = sa.create_engine("sqlite:///" + main)
+
+                @event.listens_for(eng, "connect")
+                def _attach(dbapi_con, rec, alt=alt):
+                    dbapi_con.execute("ATTACH DATABASE '%s' AS alt" % alt)
+
+                try:
+                    tabs = M.schema_metadata(twin, default_schema)
+                    md = tabs["md"]
+                    with eng.begin() as c:
+                        md.create_all(c)
+                        M.schema_populate(c, tabs)
+                    stmts, v = schema_statements(sa, tabs, rng)
+                    dump_all = [sa.select(t).order_by(*t.primary_key.columns) for t in md.sorted_tables]
+                    for name, kind, stmt in stmts:
+                        if not ctx.budget_ok():
+                            return
+                        proto = PROTOS[(k + len(name)) % len(PROTOS)]
+                        desc = {"part": "E-schema", "stmt": name, "twin": twin, "metadata_schema": default_schema, "v": v, "proto": proto}
+
+                        def vio(mech, msg, extra=None):
+                            ctx.violation(mech, "%s :: %s" % (msg, desc), {"desc": desc, "detail": extra})
+
+                        ctx.count("schema_statements_roundtripped")
+                        try:
+                            st2 = serializer.loads(serializer.dumps(stmt, proto), md, None, eng)
+                        except Exception as e:   # the round trip must yield a statement
+                            vio("serializer-roundtrip-raises-%s" % type(e).__name__, "loads(dumps(stmt)) raised %s: %s" % (type(e).__name__, e))
+                            continue
+                        c1, c2 = stmt.compile(eng), st2.compile(eng)
+                        if str(c1) != str(c2) or c1.params != c2.params:
+                            vio("statement-sql-differs-after-serializer-roundtrip", "%s / %s vs %s / %s" % (str(c1)[:200], c1.params, str(c2)[:200], c2.params))
+                            continue
+
+                        def effect(st):
+                            with eng.connect() as c:
+                                tr = c.begin()
+                                try:
+                                    res = c.execute(st)
+                                    if kind == "select":
+                                        return [tuple(r) for r in res.all()]
+                                    return [[tuple(r) for r in c.execute(d).all()] for d in dump_all]
+                                finally:
+                                    tr.rollback()
+
+                        r1, r2 = effect(stmt), effect(st2)
+                        ctx.count("statement_results_compared")
+                        if r1 != r2:
+                            vio("statement-results-differ-after-serializer-roundtrip", "%r vs %r" % (r1[:3], r2[:3]))
+                        ctx.case(desc, nontrivial=True)
+                finally:
+                    eng.dispose()
+
+
 class _Slice:
     """ctx proxy: ``budget_ok()`` is True for the first ``min_calls`` calls whatever the
     clock says (every part must observe something even on an overloaded machine), then
@@ -667,6 +779,8 @@ def run(ctx):
         part_d(R, ctx.pick({"quick": 8, "thorough": 300}))
         R.ctx = _Slice(ctx, 0.5, 18)
         part_e(R, ctx.pick({"quick": 5, "thorough": 120}))
+        R.ctx = _Slice(ctx, 0.6, 64)
+        part_e_schemas(R, ctx.pick({"quick": 1, "thorough": 12}))
         R.ctx = _Slice(ctx, 1.0, 40)
         part_a(R, ctx.pick({"quick": 280, "thorough": 3000}))
     finally:
